@@ -143,12 +143,18 @@ func c17Run(r *fw.R, d c17Desc, seed uint64, tier string) {
 	defer g.free()
 	r.SetSample(map[string]any{"fn": d.Fn, "lengths": fmt.Sprintf("%d..%d", d.LenFrom, d.LenTo-1), "alignments": "0..63", "key_example": "0x04030201"})
 
+	spare := false
 	check := func(kind string, buf []byte, lo, n int, key uint32) bool {
 		// buf[lo:lo+n] is the buffer; everything else in buf is canary
 		orig := append([]byte(nil), buf...)
 		want := append([]byte(nil), buf[lo:lo+n]...)
 		wantKey := refMask(want, key)
-		gotKey := fn(buf[lo:lo+n:lo+n], key)
+		var gotKey uint32
+		if spare {
+			gotKey = fn(buf[lo:lo+n], key) // capacity extends over the canary bytes behind the buffer
+		} else {
+			gotKey = fn(buf[lo:lo+n:lo+n], key)
+		}
 		if gotKey != wantKey {
 			r.Violate("C17/returned-key/"+d.Fn+"/"+lenClass(n), fmt.Sprintf("%s(len=%d, key=%#x) returned key %#x, definition gives %#x (%s)", d.Fn, n, key, gotKey, wantKey, kind), "")
 			return false
@@ -177,9 +183,18 @@ func c17Run(r *fw.R, d c17Desc, seed uint64, tier string) {
 			base := 4096 + al // g.data is page aligned
 			win := g.data[base-64 : base+n+64]
 			copy(win, rng.Bytes(len(win)))
+			spare = al%2 == 1 // odd alignments: the slice has spare capacity, as the library's sub-slices of I/O buffers do
 			if !check("interior", win, 64, n, key) {
 				return
 			}
+			if al%16 == 0 {
+				spare = true
+				copy(win, rng.Bytes(len(win)))
+				if !check("interior-spare-capacity", win, 64, n, key) {
+					return
+				}
+			}
+			spare = false
 			r.Count("placements", 1)
 		}
 		// flush against the upper guard page
